@@ -93,3 +93,34 @@ Fixpoint viol13_from (i : nat) (cs : list (case * list (option oflags))) : list 
   | [] => []
   | (c, f) :: t => map (fun v => (i, fst v, snd v)) (dedup_viol (chk_C13 (cs_hist c) (cs_impl c) f)) ++ viol13_from (S i) t
   end.
+
+(* ---------- C05 graph level: the cycle detector itself ---------- *)
+
+(* one entry: the adjacency list and the implementation's answer *)
+Definition gcase := (graph * (bool * list nat))%type.
+
+(* codes: 1 verdict differs from the model  2 path differs from the model
+          3 the implementation's path is not a closed path of the graph *)
+Definition gcheck (c : gcase) : list nat :=
+  let g := fst c in let ok := fst (snd c) in let p := snd (snd c) in
+  match is_acyclic g with
+  | Some (mok, mp) =>
+      (if Bool.eqb ok mok then [] else [1]) ++
+      (if list_eqb Nat.eqb p mp then [] else [2]) ++
+      (if ok then [] else if closed_pathb g p then [] else [3])
+  | None => [4]
+  end.
+
+Fixpoint gviol_from (i : nat) (cs : list gcase) : list (nat * nat) :=
+  match cs with
+  | [] => []
+  | c :: t => map (fun x => (i, x)) (gcheck c) ++ gviol_from (S i) t
+  end.
+
+(* ---------- C15: equivalent encodings of signatures ---------- *)
+(* the same history with per-function rewrites (positional <-> dig.In/dig.Out
+   objects, extra variadic parameter, name/group option <-> tag): verdicts,
+   executed functions and the provenance of every argument must be equal.
+   codes: 1501 an operation's observation differs   1502 length differs *)
+Definition chk_C15 (a b : list oobs) : list viol :=
+  chk_eq_obs 0 1501 (map (proj PExec) a) (map (proj PExec) b).
